@@ -196,7 +196,8 @@ def run_property(prop, tier, seed):
         for fid, info in unit.fns.items():
             kind = info["kind"]
             fl = fails_by_fid.get(fid, [])
-            relevant = prop in info["props"] or any(prop in ps for ps in info["clause_props"].values()) or uname in cfg.get("safety_units", [])
+            relevant = prop in info["props"] or any(prop in ps for ps in info["clause_props"].values()) or uname in cfg.get("safety_units", []) \
+                or uname in cfg.get("state_equivalence_units", [])
             if kind == "stub":
                 o = info["obj"]
                 stubs.append({"unit": uname, "function": fid, "file": o.file,
@@ -256,11 +257,17 @@ def run_property(prop, tier, seed):
                 if cl is not None:
                     props = info["clause_props"].get(f["label"], info["props"])
                 elif ltoks:      # a named assertion carries its properties in its label
-                    props = set(ltoks) | set(info["props"])
+                    props = set(ltoks)
                 else:   # a failed safety condition / invariant leaves every clause of the function unproved
                     props = set(info["props"]).union(*[set(ps) for ps in info["clause_props"].values()])
                     if uname in cfg.get("safety_units", []):
                         props.add(prop)      # panic-freedom of this unit's functions is part of this property
+                if prop not in props and uname in cfg.get("state_equivalence_units", []):
+                    # C06 (state equivalence): the logical-state contracts of these units never mention the target, so they
+                    # hold for hidden and visible bars alike; a failure concerns C06 only if the function consults hiddenness
+                    src = getattr(info.get("obj"), "_last_source", "") or ""
+                    if re.search(r"is_hidden\s*\(|\.hidden\s*\(|remote\s*\(", src):
+                        props = set(props) | {prop}
                 if prop not in props:
                     continue
                 failed_labels.add(f["label"])
